@@ -65,7 +65,13 @@ def catalogue(prop, names):
             continue
         d = scratch_copy()
         try:
-            apply_mutant(d, m)
+            try:
+                apply_mutant(d, m)
+            except RuntimeError as e:
+                # the repository moved on under a string-replacement mutant
+                print(m["name"], "STALE", str(e)[:160], flush=True)
+                ok = False
+                continue
             rc, out, wall = run_check(prop, d)
         finally:
             shutil.rmtree(d, ignore_errors=True)
